@@ -187,6 +187,14 @@ def judge_doc(ctx, doc, g, rep, nontrivial, samples, label, node_ids_given):
     else:
         ok, diag = py_closed(doc, g)
     if ok:
+        # (g) at document level, referenced objects included: an identifier that is not given in the input stands for ONE
+        # object only (a flow and a group of the same name are two objects; one name has one identifier: that is C06)
+        clash = invented_id_reuse(doc, g)
+        if clash:
+            u, objs = clash
+            v.failing_input("invented-id-reused", f"the invented identifier {u} is used for two different objects: {objs[0]} and {objs[1]}", rep)
+            return
+    if ok:
         ctx.count("closed")
         nn = sum(len(f["nodes"]) for f in doc["flows"])
         if nn >= 3 and any("router" in n for f in doc["flows"] for n in f["nodes"]):
@@ -209,6 +217,57 @@ def judge_doc(ctx, doc, g, rep, nontrivial, samples, label, node_ids_given):
         if rep_ids and rep_ids <= node_ids_given:
             key = "duplicate-given-node-id"
     v.failing_input(key, "compiled document is not closed: " + CLAUSES.get(diag, str(diag)), rep)
+
+
+def invented_id_reuse(doc, given):
+    """-> (uuid, [object, object]) when an identifier outside `given` denotes two different objects of the document
+    (definitions by position; groups and flows by kind and name), else None"""
+    objs = {}
+
+    def put(u, obj):
+        if isinstance(u, str) and u and u not in given:
+            objs.setdefault(u, [])
+            if obj not in objs[u]:
+                objs[u].append(obj)
+
+    for fi, f in enumerate(doc.get("flows", [])):
+        put(f.get("uuid"), ("flow", f.get("name")))
+        for ni, n in enumerate(f.get("nodes", [])):
+            put(n.get("uuid"), ("node", fi, ni))
+            for ei, e in enumerate(n.get("exits", [])):
+                put(e.get("uuid"), ("exit", fi, ni, ei))
+            for ai, a in enumerate(n.get("actions", []) or []):
+                put(a.get("uuid"), ("action", fi, ni, ai))
+                for gr in a.get("groups", []) or []:
+                    put(gr.get("uuid"), ("group", gr.get("name")))
+                if isinstance(a.get("flow"), dict):
+                    put(a["flow"].get("uuid"), ("flow", a["flow"].get("name")))
+            r = n.get("router") or {}
+            for ci, c in enumerate(r.get("categories", []) or []):
+                put(c.get("uuid"), ("category", fi, ni, ci))
+            for ki, k in enumerate(r.get("cases", []) or []):
+                put(k.get("uuid"), ("case", fi, ni, ki))
+                if k.get("type") == "has_group" and len(k.get("arguments", [])) > 1:
+                    put(k["arguments"][0], ("group", k["arguments"][1]))
+    for gr in doc.get("groups", []) or []:
+        put(gr.get("uuid"), ("group", gr.get("name")))
+    for c in doc.get("campaigns", []) or []:
+        put(c.get("uuid"), ("campaign", c.get("name")))
+        if isinstance(c.get("group"), dict):
+            put(c["group"].get("uuid"), ("group", c["group"].get("name")))
+        for ei, e in enumerate(c.get("events", []) or []):
+            put(e.get("uuid"), ("event", c.get("name"), ei))
+            if isinstance(e.get("flow"), dict):
+                put(e["flow"].get("uuid"), ("flow", e["flow"].get("name")))
+    for t in doc.get("triggers", []) or []:
+        if isinstance(t.get("flow"), dict):
+            put(t["flow"].get("uuid"), ("flow", t["flow"].get("name")))
+        for gr in (t.get("groups", []) or []) + (t.get("exclude_groups", []) or []):
+            put(gr.get("uuid"), ("group", gr.get("name")))
+    for u, o in objs.items():
+        if len(o) > 1:
+            return u, o
+    return None
 
 
 def py_closed(doc, given):
